@@ -4,7 +4,7 @@ from __future__ import annotations
 import ast
 
 from ..cfg import cfg_of, T as TRUE, F as FALSE
-from ..dataflow import derives, rd_of
+from ..dataflow import derives, rd_of, return_values
 from ..loader import dotted, walk_no_nested
 from . import c09
 from . import common_order as CO
@@ -186,10 +186,22 @@ def neg_slice(ctx, rule="C13.undo"):
     return n
 
 
+def live_parameters(ctx, rule="C13.undo"):
+    ctx.explain(f"{rule}: (live parameters) TDMProgram.parameters is computed from self.loop_vars and self.tdm_params at every access: "
+                "compilers rewrite `compiled.tdm_params` on the linked copy (loop-phase compensation), a table cached at context() "
+                "time keeps the arrays of the source program.")
+    f = ctx.tree.func(T, "TDMProgram.parameters")
+    rets = return_values(f.node)
+    ok = bool(rets) and all({"self.tdm_params", "self.loop_vars"} <= derives(f.node, r.value).attrs for r, v in rets)
+    ctx.ob(rule, f.site, ok, "" if ok else "TDMProgram.parameters does not derive from self.tdm_params / self.loop_vars at access time "
+           "(a cached table goes stale when the parameter arrays are replaced)", role="parameters-live", line=f.node.lineno)
+
+
 def rules(ctx):
     options(ctx)
     op_clone(ctx)
     undo(ctx)
+    live_parameters(ctx)
     neg_slice(ctx)
     lock(ctx)
     order(ctx)
